@@ -54,7 +54,7 @@ PSTRAT = {
 }
 MULTI = ["multivariate_normal", "dirichlet", "multinomial"]
 WRAPPED = ["tfp:Logistic", "tfp:Gumbel", "tfp:Pareto", "custom:shifted_exponential"]
-MODES = ["sample_shape", "vmap_keys", "modular_vmap", "gen_site", "kwargs"]
+MODES = ["sample_shape", "vmap_keys", "modular_vmap", "gen_site", "kwargs", "vmap_mapped_params", "vmap_mapped_kwargs"]
 
 
 def cases():
@@ -112,6 +112,14 @@ def draw_samples(dist, args, kw, mode, n, key, event_ndim=0):
             return dist(*jargs) @ "x"
 
         return jax.jit(jax.vmap(lambda k: seed(m.simulate)(k).get_choices()["x"]))(jax.random.split(key, n))
+    if mode in ("vmap_mapped_params", "vmap_mapped_kwargs"):
+        # every lane gets (a copy of) the same parameters through the mapped axis: n independent draws of one law
+        if mode == "vmap_mapped_kwargs" and kw is not None:
+            names = sorted(kw)
+            tiled = [jnp.broadcast_to(jnp.asarray(kw[k]), (n,) + jnp.shape(jnp.asarray(kw[k]))) for k in names]
+            return seed(modular_vmap(lambda *a: dist.sample(**dict(zip(names, a))), in_axes=0))(key, *tiled)
+        tiled = [jnp.broadcast_to(a, (n,) + jnp.shape(a)) for a in jargs]
+        return seed(modular_vmap(lambda *a: dist.sample(*a), in_axes=0))(key, *tiled)
     if mode == "kwargs":
         if kw is None:
             return seed(lambda: dist.sample(*jargs, sample_shape=(n,)))(key)
